@@ -150,10 +150,15 @@ def build_fields(case):
     """-> (list of Field objects in the order of case['fields'], dict id -> Field)"""
     qib = _ctx["qib"]
     objs = {}
-    for fid, ns, ld in case["field_defs"]:
+    shared = {}      # fields of equal size are built on ONE shared lattice object (a system and an ancilla register of the same geometry):
+    for fid, ns, ld in case["field_defs"]:      # distinct Field objects stay distinct registers whatever their lattices are
         if ld == 2:
             pt = qib.field.ParticleType.QUBIT if fid % 2 == 0 else qib.field.ParticleType.FERMION
-            objs[fid] = qib.field.Field(pt, qib.lattice.IntegerLattice((ns,), pbc=False))
+            if case.get("share_lattice", True):
+                latt = shared.setdefault(ns, qib.lattice.IntegerLattice((ns,), pbc=False))
+            else:
+                latt = qib.lattice.IntegerLattice((ns,), pbc=False)
+            objs[fid] = qib.field.Field(pt, latt)
         else:
             objs[fid] = qib.field.Field(qib.field.ParticleType.BOSON, qib.lattice.IntegerLattice((ns,), pbc=False), maxocc=ld - 1)
     return [objs[fid] for fid in case["order"]], objs
